@@ -142,6 +142,10 @@ def plan(tier, seed):
                    'runner': 'run_columns', 'chunk': 1, 'samples': 1})
     rows = list(range(1, 31)) + [99, 100, 101, 999, 1000, 1001, 9999, 10000]
     phases.append({'name': 'rows', 'cases': [{'rows': rows, 'mode': 'file'}], 'runner': 'run_rows', 'chunk': 1})
+    # sheets without any cell at every position among the data sheets (indices of titles and of data must stay in step)
+    phases.append({'name': 'empty-sheets-between', 'cases': [{'layout': list(l)} for l in
+                                                             itertools.product('DE', repeat=4) if l.count('D') >= 2],
+                   'runner': 'run_empty_between', 'chunk': 2})
     if tier == 'thorough':
         phases.append({'name': 'far-rows', 'cases': [{'rows': [65536, 99999, 1048576], 'mode': 'entry'}], 'runner': 'run_rows',
                        'chunk': 1})
@@ -506,4 +510,62 @@ def run_rows(cases, stats):
                     vio.append({'i': i, 'desc': {'kind': 'row', 'digits': len(str(r)), 'position': 'bare' if col == 'A' else 'SUM',
                                                  'outcome': out[0] if out[0] != 'VALUE' else 'VALUE_MISMATCH'},
                                 'expected': r * 7 + 1, 'observed': [r, D.enc(out[1]) if out[0] == 'VALUE' else list(out)]})
+    return vio
+
+
+def run_empty_between(cases, stats):
+    """layout: a string over D (data sheet) / E (sheet without cells); every data sheet holds the planted block and, in
+    column J, references to every data sheet (prefixed) and to itself (bare)."""
+    vio = []
+    for i, c in enumerate(cases):
+        lay = c['layout']
+        titles = [f'T{j}' if k == 'D' else f'E {j}' for j, k in enumerate(lay)]
+        data = [j for j, k in enumerate(lay) if k == 'D']
+        sheets = []
+        expect = {}
+        for j, k in enumerate(lay):
+            cells = {}
+            if k == 'D':
+                cells = {f'{cl(cc)}{r}': val(j, cc, r) for cc in range(1, 4) for r in range(1, 4)}
+                row = 1
+                for t in data:
+                    q = "'" + titles[t] + "'"
+                    cells[f'J{row}'] = f'={q}!B2'
+                    expect[(j, 'J', row)] = val(t, 2, 2)
+                    cells[f'K{row}'] = f'=SUM({q}!A1:C3)'
+                    expect[(j, 'K', row)] = sum(val(t, cc, r) for cc in range(1, 4) for r in range(1, 4))
+                    cells[f'L{row}'] = f'=SUM({q}!A:A)'
+                    expect[(j, 'L', row)] = sum(val(t, 1, r) for r in range(1, 4))
+                    row += 1
+                cells['M1'] = '=B2'
+                expect[(j, 'M', 1)] = val(j, 2, 2)
+                cells['M2'] = '=SUM(A1:C3)'
+                expect[(j, 'M', 2)] = sum(val(j, cc, r) for cc in range(1, 4) for r in range(1, 4))
+                for e in [t for t, kk in enumerate(lay) if kk == 'E']:
+                    cells[f'N{e + 1}'] = f"='{titles[e]}'!A1"
+                    expect[(j, 'N', e + 1)] = None
+            sheets.append((titles[j], cells))
+        kind, text = D.translate(sheets)
+        stats['transitions'] += 1
+        cls = None
+        if kind == 'TEXT':
+            k2, cls, _ = D.load_class(text)
+            if k2 != 'CLASS':
+                kind, text = k2, cls
+        if kind != 'TEXT':
+            vio.append({'i': i, 'desc': {'position': 'empty-sheets', 'layout': ''.join(lay), 'outcome': kind}, 'expected': 'translates',
+                        'observed': str(text)[:200]})
+            continue
+        ex = D.new_executor(cls)
+        for (j, col, row), want in expect.items():
+            o = D.eval_cell(ex, titles[j], col, str(row))
+            stats['evaluations'] += 1
+            stats['validated'] += 1
+            stats['nontrivial'] += 1
+            ok = (o[0] == 'VALUE' and D.is_blank(o[1])) if want is None else (o[0] == 'VALUE' and o[1] == want and not D.is_blank(o[1]))
+            if not ok:
+                vio.append({'i': i, 'desc': {'position': 'empty-sheets', 'layout': ''.join(lay), 'column': col,
+                                             'outcome': 'VALUE_MISMATCH' if o[0] == 'VALUE' else o[0]},
+                            'expected': want, 'observed': [titles[j], col, row, D.enc(o[1]) if o[0] == 'VALUE' else list(o)]})
+                break
     return vio
